@@ -65,7 +65,11 @@ func conformanceOps() []storeOp {
 	ek := types.NamespacedName{Namespace: "ns", Name: "foo"}
 	rk := types.NamespacedName{Namespace: "ns", Name: "foo-a"}
 	return []storeOp{
-		{"createPod", func(c client.Client, a *w.API) string { p := mkPod(); e := a.Create(ctx, p); return errClass(e) + " " + p.Name }},
+		{"createPod", func(c client.Client, a *w.API) string {
+			p := mkPod()
+			e := a.Create(ctx, p)
+			return errClass(e) + " " + p.Name
+		}},
 		{"podStatus", func(c client.Client, a *w.API) string {
 			p := &corev1.Pod{}
 			if e := a.Get(ctx, pk, p); e != nil {
